@@ -109,7 +109,9 @@ func (s *Seq) opSmall() {
 }
 
 // smallSweep compares the second collection with its model.
-func (s *Seq) smallSweep(tag, ctx string) {
+func (s *Seq) smallSweep(tag, ctx string) { s.softOracle("", func() { s.smallSweep0(tag, ctx) }) }
+
+func (s *Seq) smallSweep0(tag, ctx string) {
 	if s.small == nil {
 		return
 	}
